@@ -422,6 +422,8 @@ elf_get_page(struct page_io *pio)
 	kdump_status status;
 
 	sz = get_page_size(ctx);
+	/* The lookups update the last-hit pointers shared by all clones. */
+	mutex_lock(&ctx->shared->cache_lock);
 	pls = pio->addr.as == ADDRXLAT_KVADDR
 		? (get_zero_excluded(ctx)
 		   ? find_closest_mem_vload(edp, pio->addr.addr, sz)
@@ -429,6 +431,7 @@ elf_get_page(struct page_io *pio)
 		: (get_zero_excluded(ctx)
 		   ? find_closest_mem_load(edp, pio->addr.addr, sz)
 		   : find_closest_file_load(edp, pio->addr.addr, sz));
+	mutex_unlock(&ctx->shared->cache_lock);
 	if (!pls && pio->addr.as == ADDRXLAT_KVADDR) {
 		addrxlat_status status;
 		kdump_status ret;
@@ -443,7 +446,9 @@ elf_get_page(struct page_io *pio)
 		if (status != ADDRXLAT_OK)
 			return addrxlat2kdump(ctx, status);
 
+		mutex_lock(&ctx->shared->cache_lock);
 		pls = find_closest_mem_load(edp, pio->addr.addr, sz);
+		mutex_unlock(&ctx->shared->cache_lock);
 	}
 	if (!pls)
 		return set_error(ctx, KDUMP_ERR_NODATA, "Page not found");
@@ -475,11 +480,13 @@ elf_get_bits(struct kdump_shared *shared,
 
 	cur = pfn_to_addr(shared, first);
 	next = pfn_to_addr(shared, last - first  + 1);
+	mutex_lock(&shared->cache_lock);
 	pls = first > addr_to_pfn(shared, KDUMP_ADDR_MAX)
 		? NULL		/* PFN without an address */
 		: ismem
 		? find_closest_mem_load(edp, cur, next)
 		: find_closest_file_load(edp, cur, next);
+	mutex_unlock(&shared->cache_lock);
 	if (!pls) {
 		memset(bits, 0, ((last - first) >> 3) + 1);
 		return;
@@ -546,6 +553,7 @@ elf_find_set(kdump_errmsg_t *err, struct kdump_shared *shared,
 	const struct load_segment *pls;
 	kdump_paddr_t pfn;
 
+	mutex_lock(&shared->cache_lock);
 	pls = *idx > addr_to_pfn(shared, KDUMP_ADDR_MAX)
 		? NULL		/* PFN without an address */
 		: ismem
@@ -553,6 +561,7 @@ elf_find_set(kdump_errmsg_t *err, struct kdump_shared *shared,
 					KDUMP_ADDR_MAX)
 		: find_closest_file_load(edp, pfn_to_addr(shared, *idx),
 					 KDUMP_ADDR_MAX);
+	mutex_unlock(&shared->cache_lock);
 	if (!pls)
 		return status_err(err, KDUMP_ERR_NODATA,
 				  "No such bit found");
@@ -595,6 +604,7 @@ elf_find_clear(kdump_errmsg_t *err, struct kdump_shared *shared,
 	struct elfdump_priv *edp = shared->fmtdata;
 	const struct load_segment *pls;
 
+	mutex_lock(&shared->cache_lock);
 	pls = *idx > addr_to_pfn(shared, KDUMP_ADDR_MAX)
 		? NULL		/* PFN without an address */
 		: ismem
@@ -602,6 +612,7 @@ elf_find_clear(kdump_errmsg_t *err, struct kdump_shared *shared,
 					KDUMP_ADDR_MAX)
 		: find_closest_file_load(edp, pfn_to_addr(shared, *idx),
 					 KDUMP_ADDR_MAX);
+	mutex_unlock(&shared->cache_lock);
 	if (!pls)
 		return;
 	while (pls < &edp->load_sorted[edp->num_load_sorted] &&
